@@ -163,9 +163,17 @@ func (g statusGen) run(rng *rand.Rand, tier string, k int) Case {
 	condTypes := []trialsv1beta1.TrialConditionType{trialsv1beta1.TrialKilled, trialsv1beta1.TrialFailed, trialsv1beta1.TrialSucceeded,
 		trialsv1beta1.TrialEarlyStopped, trialsv1beta1.TrialRunning, trialsv1beta1.TrialMetricsUnavailable}
 	avail := 0
+	terminating := false
 	for i := 0; i < nt; i++ {
 		t := trialsv1beta1.Trial{}
 		t.Name = fmt.Sprintf("t%d", i)
+		if rng.Intn(6) == 0 {
+			// a Trial under deletion that still holds its finalizer is listed like any other
+			now := metav1.NewTime(time.Unix(1700000000, 0))
+			t.DeletionTimestamp = &now
+			t.Finalizers = []string{"clean-metrics-in-db"}
+			terminating = true
+		}
 		mask := 0
 		// conditions: mostly realistic (Created, Running True/False, one terminal), sometimes arbitrary subsets
 		t.Status.Conditions = append(t.Status.Conditions, trialsv1beta1.TrialCondition{Type: trialsv1beta1.TrialCreated, Status: corev1.ConditionTrue})
@@ -320,6 +328,9 @@ func (g statusGen) run(rng *rand.Rand, tier string, k int) Case {
 		}
 		tags = append(tags, "last="+last)
 	}()
+	if terminating {
+		tags = append(tags, "trial-under-deletion")
+	}
 	return Case{Ops: []string{op}, Impl: []string{impl}, Tags: tags, Trivial: nt == 0 || avail == 0}
 }
 
